@@ -164,7 +164,7 @@ def parseOp? (s : String) : Option Op := do
 def parseOps? (s : String) : Option (List Op) :=
   if s = "~" then some [] else (s.splitOn ".").mapM parseOp?
 
-def handle : Handler := fun op args =>
+def handleCore : Handler := fun op args =>
   match op, args with
   | "c15q", [q, ops] => do
     -- `_update_q(q, ops)` on its own
@@ -201,5 +201,13 @@ def handle : Handler := fun op args =>
     let out := runInv rev steps (BC.new anchor) []
     some ("ok " ++ (if out.isEmpty then "~" else "|".intercalate out))
   | _, _ => none
+
+/-- `c15real <net> <anchor> <iter> <headers> <steps>`: the harness runs the same history on real header objects of the
+network's Block class (parsed from wire bytes) and translates 32-byte hashes back to the header numbers; the model's
+answer is that of `c15` (BlockChain does not look inside headers beyond hash, parent and difficulty) -/
+def handle : Handler := fun op args =>
+  match op, args with
+  | "c15real", _net :: rest => handleCore "c15" rest
+  | _, _ => handleCore op args
 
 end Pycoin.Driver.C15
